@@ -24,7 +24,6 @@ TRUSTED_BASE = ["Lean 4.33 kernel", "axioms: propext, Classical.choice, Quot.sou
                 "harness + generator + hex-float import", "driver glue: parsing, bounding-box prefilter (completeness of the hit search only)"]
 ASSUMPTIONS = ["shapes are convex (generated so); interior := intersection of open edge half-planes",
                "path existence is certified constructively (explicit path); when the driver's search finds none the case is counted, not judged"]
-WIP = True
 
 def plan(tier, seed, searching):
     return [dict(hargs=["--seed", str(seed), "--tier", tier, "--scale", "8" if searching else "1"])]
